@@ -65,6 +65,31 @@ theorem recvParams_payload_irrel {tb : Nat} {B : Ctx} {rid : Option ReqId} {o : 
     have hl' : c.length < tb + 1 := by omega
     simp [recvParams, hcode, hopt, hu, hids, hsel, hg, hl']
 
+theorem recvParams_payload_long {tb : Nat} {B : Ctx} {rid : Option ReqId} {o : Msg} {c : Bytes}
+    {rp : RecvParams} (h : recvParams tb B rid o = .ok rp) (hl : tb + 1 ≤ c.length) :
+    recvParams tb B rid { o with payload := c } = .ok rp := by
+  rcases recvParams_payload_irrel (c := c) h with h1 | h1
+  · exact h1
+  · obtain ⟨option, u, s, hcode, hopt, hu, hids, hsel, hg, _, hn, ha, hr, hq⟩ := recvParams_ok_inv h
+    have := recvParams_of_fields (tb := tb) (B := B) (rid := rid) (o := { o with payload := c })
+      hcode hopt hu hids hsel hg hl hn
+    rw [this] at h1; cases h1
+
+theorem parsePlaintext_ne_nil {pt : Bytes} {inner : Msg} (h : parsePlaintext pt = some inner) :
+    1 ≤ pt.length := by
+  cases pt with
+  | nil => simp [parsePlaintext] at h
+  | cons x xs => simp
+
+theorem padPiv_zero_cons {p : Bytes} (h : p.length < 5) : padPiv (0 :: p) = padPiv p := by
+  simp only [padPiv, List.length_cons]
+  have : 5 - p.length = (5 - (p.length + 1)) + 1 := by omega
+  rw [this, List.replicate_succ', List.append_assoc]
+  rfl
+
+theorem beToNat_zero_cons (p : Bytes) : beToNat (0 :: p) = beToNat p := by
+  rw [beToNat_cons]; simp
+
 theorem wf_len_lt {B : Ctx} (hB : B.wf) {n : Nat} (h : n ≤ B.ivBytes - 6) : n < 2 ^ 32 := by
   have := hB.ivHi
   have : (255 : Nat) < 2 ^ 32 := by decide
